@@ -266,7 +266,7 @@ def _logits_mask_order(check: Check, ev: FuncInfo, ff: FuncFlow):
     check.ob('R-ORDER.logits-mask', ev, 'pred += logits_mask', False, 'the configured logits mask is never added to the predictions')
     return
   node, pname = aug
-  guarded = any(isinstance(t, ast.Compare) and isinstance(t.ops[0], ast.IsNot) and _self_field(t.left) == 'logits_mask' and pol
+  guarded = any(isinstance(t, ast.Compare) and isinstance(t.ops[0], ast.Is) and _self_field(t.left) == 'logits_mask' and not pol
                 for t, pol in guards_of(ff, node.ast))
   n_rank = 0
   for _, c in ff.calls():
@@ -341,7 +341,7 @@ def _accuracy(check: Check):
         if isinstance(x, ast.Compare) and isinstance(x.ops[0], ast.Eq):
           sides = [x.left, x.comparators[0]]
           am = [s for s in sides if isinstance(s, ast.Call) and ff.ext(s.func) in ARGMAX]
-          tg = [s for s in sides if isinstance(s, ast.Name) and _is_target(ff, s)]
+          tg = [s for s in sides if _is_target(ff, s)]
           if am and tg:
             ax = next((k.value for k in am[0].keywords if k.arg == 'axis'), None)
             ok = ax is None or (isinstance(ax, ast.UnaryOp) and isinstance(ax.operand, ast.Constant) and ax.operand.value == 1)
